@@ -133,6 +133,7 @@ type c18PoolScn struct {
 
 func c18GenPool(r interface{ Intn(int) int }, aged bool) c18PoolScn {
 	sc := c18PoolScn{Limit: 1 + r.Intn(4)}
+	tight := r.Intn(2) == 0
 	nclients, percl := 2+r.Intn(5), 1+r.Intn(4)
 	if r.Intn(5) == 0 {
 		nclients, percl = 1, 4+r.Intn(8) // sequential histories: the checker is exact
@@ -141,7 +142,7 @@ func c18GenPool(r interface{ Intn(int) int }, aged bool) c18PoolScn {
 	for c := 0; c < nclients; c++ {
 		var its []c18PoolIter
 		for j := 0; j < percl; j++ {
-			its = append(its, c18PoolIter{Pre: c18RandDelay(r), Hold: c18RandDelay(r)})
+			its = append(its, c18PoolIter{Pre: c18PreDelay(r, tight), Hold: c18PreDelay(r, tight)})
 			total++
 		}
 		sc.Clients = append(sc.Clients, its)
@@ -150,7 +151,7 @@ func c18GenPool(r interface{ Intn(int) int }, aged bool) c18PoolScn {
 		sc.MaxAge = int64(2 + r.Intn(20))
 		n := 1 + total/2
 		for j := 0; j < n; j++ {
-			sc.Clock = append(sc.Clock, c18ClockOp{Pre: c18RandDelay(r), D: c18AgeStep(r, sc.MaxAge)})
+			sc.Clock = append(sc.Clock, c18ClockOp{Pre: c18PreDelay(r, tight), D: c18AgeStep(r, sc.MaxAge)})
 		}
 	}
 	return sc
@@ -197,6 +198,7 @@ func c18RunPool(m *vk.M, idx int, sc c18PoolScn) bool {
 		overflow  int32
 		wg        sync.WaitGroup
 		start     = make(chan struct{})
+		gate      = c18NewGate(int32(len(sc.Clients) + b2i(len(sc.Clock) > 0)))
 	)
 	drID := len(sc.Clients) + 1
 	create := func() any {
@@ -243,6 +245,7 @@ func c18RunPool(m *vk.M, idx int, sc c18PoolScn) bool {
 			defer wg.Done()
 			lg := logs[ci]
 			<-start
+			gate.wait()
 			for _, it := range sc.Clients[ci] {
 				c18Delay(it.Pre)
 				call := vk.Seq()
@@ -281,6 +284,7 @@ func c18RunPool(m *vk.M, idx int, sc c18PoolScn) bool {
 		go func() {
 			defer wg.Done()
 			<-start
+			gate.wait()
 			for _, c := range sc.Clock {
 				c18Delay(c.Pre)
 				call := vk.Seq()
